@@ -67,6 +67,8 @@ type target struct {
 	// loopbody.go: one iteration of a loop as a step function
 	LoopBody  int               // N >= 1: translate the prologue + the body of the N-th top-level for / range statement
 	RangeVars map[string]string // Go types of the range variables of that loop (name -> type text)
+	// ext_isostat.go
+	NilRes []string // result types (source text, e.g. "*Rule") reported as a Z code like an error: 0 = nil, Errs[expr] otherwise
 }
 
 var targets = []target{
@@ -1084,6 +1086,9 @@ func (x *tr) exec1(stmts []ast.Stmt, rest [][]ast.Stmt) string { // called throu
 		if out, ok := x.commaOk(s, tail, rest); ok {
 			return out
 		}
+		if x.appendAct(s) || x.ptrHint(s) { // ext_isostat.go
+			return x.exec(tail, rest)
+		}
 		if x.opaqueMulti(s) { // effects.go
 			return x.exec(tail, rest)
 		}
@@ -1388,11 +1393,14 @@ func translate(root *rootT, t target) (def string, info outFn) {
 	}
 	for _, f := range resList {
 		ty := x.typeOfExpr(f.Type)
-		if st := src(p.fset, f.Type); st == "error" || st == "*base.TokenResult" {
+		if st := src(p.fset, f.Type); st == "error" || st == "*base.TokenResult" || x.isNilRes(st) {
 			ty = "error" // 0 = nil, non-zero = a non-nil value
 		}
 		if x.isTokres(f.Type) {
 			ty = "tokres" // (tag, value): see ext_hotspot.go
+		}
+		if x.isAppendOnly(f) {
+			ty = "string" // ext_isostat.go: a slice that only receives recorded appends; dropped from the result tuple
 		}
 		if len(f.Names) == 0 {
 			x.resTypes = append(x.resTypes, ty)
